@@ -51,9 +51,8 @@
     DecodeUTF16LE                                ≤ 9·(L/2); text ≤ 3·(L/2)                      utf16_decode_alloc_bound
     GPPPDecryptBytes / Base64                    ≤ 6·L + 16 / ≤ 7·L + 32                        gpp_decrypt_bytes_/gpp_decrypt_base64_alloc_bound
     ParseSIDFromBytes                            ≤ 10·L; text ≤ 3·L + 2                         sid_alloc_bound
-    GetDomainFromDistinguishedName               result ≤ L; intermediate strings ≤ (L+1)(L+16) dn_domain_alloc_bound
-                                                  — QUADRATIC, and measured so on the real code
-                                                  (fixes/C07-dn-domain-quadratic.diff proposed)
+    GetDomainFromDistinguishedName               result ≤ L; allocated ≤ 17·L + 16              dn_domain_alloc_bound
+                                                  (quadratic before the repair fixes/C07-dn-domain-quadratic.diff)
     UUID / GUID, LDAP times, IP / port / LM:NT   constants (23…64)                              uuid_guid_/ldap_time_/address_parsers_fixed_alloc_bound
 
   Not modelled (measured only, by the allocation audit of tools/harness/engine.go on the real code):
@@ -779,12 +778,13 @@ theorem sid_alloc_bound (b : Bytes) :
     Manticore.C16.sidAllocOf b ≤ 10 * b.length ∧
     ∀ s, Manticore.C16.parseSID b = .ok s → s.length ≤ Manticore.C16.sidAllocOf b ∧ s.length ≤ 3 * b.length + 2 :=
   ⟨Manticore.C07A.Rest.sidAllocOf_le b, fun s h => Manticore.C07A.Rest.parseSID_alloc_bound b s h⟩
-/-- **allocation, `GetDomainFromDistinguishedName`**: the result is no longer than the input; the
-    strings built on the way (`domain += … + "."` once per `DC=` part, `dnAllocOf`) add up to at most
-    `(len+1)·(len+16)` — quadratic, and really so (16 copies of `DC=,` cost 136 bytes of strings) -/
+/-- **allocation, `GetDomainFromDistinguishedName`**: the result is no longer than the input, and what is allocated
+    on the way (one header per part, the bytes written to the builder) is at most `17·len + 16`.  Before the repair
+    (`domain += … + "."` once per `DC=` part) it was quadratic — `dnAllocConcat`, 136 bytes of strings for 16 copies of
+    `DC=,` — and measured so on the real code (68 MB for 40 000 bytes). -/
 theorem dn_domain_alloc_bound (dn : Bytes) :
     (Manticore.C16.domainOfDN dn).length ≤ dn.length ∧
-    Manticore.C16.dnAllocOf dn ≤ (dn.length + 1) * (dn.length + 16) :=
+    Manticore.C16.dnAllocOf dn ≤ 17 * dn.length + 16 :=
   ⟨Manticore.C07A.Rest.domainOfDN_alloc_bound dn, Manticore.C07A.Rest.dnAllocOf_le dn⟩
 /-- **allocation, LDAP time parsers and the binary time**: one integer / one time value -/
 theorem ldap_time_fixed_alloc_bound :
